@@ -40,9 +40,14 @@ type FlowOpts struct {
 	ThroughCalls bool // inline module callees' return values (depth-limited)
 }
 
+type flowKey struct {
+	v    ssa.Value
+	path string
+}
+
 type flowState struct {
 	opts  FlowOpts
-	seen  map[ssa.Value]bool
+	seen  map[flowKey]bool
 	out   []Origin
 	depth int
 }
@@ -52,7 +57,7 @@ func Origins(v ssa.Value, opts FlowOpts) []Origin {
 	if opts.MaxDepth == 0 {
 		opts.MaxDepth = 60
 	}
-	st := &flowState{opts: opts, seen: map[ssa.Value]bool{}}
+	st := &flowState{opts: opts, seen: map[flowKey]bool{}}
 	st.walk(v, "", 1, 0, true, nil, 0)
 	return st.out
 }
@@ -84,12 +89,13 @@ func (st *flowState) walk(v ssa.Value, path string, a, b int64, aff bool, keys [
 		st.emit("other", v, "depth", path, a, b, false, keys)
 		return
 	}
-	// allow revisiting with different path only a little: key on value+path
-	if st.seen[v] && path == "" {
+	k := flowKey{v, path}
+	if st.seen[k] {
 		return
 	}
-	if path == "" {
-		st.seen[v] = true
+	st.seen[k] = true
+	if len(st.seen) > 20000 {
+		return
 	}
 	switch x := v.(type) {
 	case *ssa.Parameter:
